@@ -14,13 +14,16 @@ TFiles == ToSet(Header.files)
 TWorkers == ToSet(Header.workers)
 Ev == SubSeq(Rec, 2, Len(Rec))
 
-VARIABLES result, pool, quitMsgs, wpc, wfile, active, quitNow, chan, rxOpen, col, acc, txMain, main, l
+VARIABLES result, pool, quitMsgs, wpc, wfile, active, quitNow, chan, rxOpen, col, acc, txMain, main, genres, todo, wrote, l
 
+\* Header.out_of: source file -> the output file its items go to; Header.single: -o (TRUE) or -d (FALSE)
 P == INSTANCE Pipeline WITH Files <- TFiles, Workers <- TWorkers, Cap <- Header.cap,
                             ResultKinds <- {"none", "ok", "bad", "err", "panic"},
-                            Items <- [f \in TFiles |-> <<>>]
+                            Items <- [f \in TFiles |-> <<>>],
+                            OutOf <- [f \in TFiles |-> Header.out_of[f]], SingleFile <- Header.single,
+                            GenKinds <- {"ok", "generr"}
 
-pvars == <<result, pool, quitMsgs, wpc, wfile, active, quitNow, chan, rxOpen, col, acc, txMain, main>>
+pvars == <<result, pool, quitMsgs, wpc, wfile, active, quitNow, chan, rxOpen, col, acc, txMain, main, genres, todo, wrote>>
 
 \* what the log says about a file's parse result constrains the (otherwise unknown) result function
 LoggedKinds(f) == {Ev[j].detail : j \in {k \in 1..Len(Ev) : Ev[k].ev = "Parsed" /\ Ev[k].file = f}}
@@ -56,28 +59,41 @@ TCollectorExit == /\ Is("CollectorExit") /\ Consume
                   /\ IF col = "run" THEN P!ColEnd ELSE (col = "retErr" /\ Stutter)
 TWalkDone == /\ Is("WalkDone") /\ Consume /\ main = "walking" /\ P!ScopeEnd /\ main' = "joincol"
 TJoined == /\ Is("Joined") /\ Consume /\ Stutter /\ main = "joincol" /\ col = "retOk"
-TStage == /\ (Is("Reconciled") \/ Is("Write") \/ Is("WriteSkip") \/ Is("Written")) /\ Consume /\ Stutter
-          /\ main = "joincol" /\ col = "retOk"
-          /\ Is("Reconciled") => ((Ev[l].detail # "0") = P!HasErrors)
-\* besides Pipeline's own exits, the generation stage (not modelled action by action) may fail: an error
-\* (exit 1) or a panic in the main thread (exit 101) after a successful join. P judges those states too.
-GenFails(code) == /\ main = "joincol" /\ col = "retOk" /\ ~P!HasErrors
+TReconciled == /\ Is("Reconciled") /\ Consume /\ Stutter
+               /\ main = "joincol" /\ col = "retOk"
+               /\ (Ev[l].detail # "0") = P!HasErrors
+\* an output handed to the writer (written, or found unchanged): only in the generation stage - i.e. after ALL parse errors
+\* have been checked -, every output at most once, and only an output some accepted file contributes to. The ORDER in which
+\* outputs are written is not part of any property: any output still to do may come next.
+InTodo(o) == \E k \in 1..Len(todo) : todo[k] = o
+TWrite == /\ (Is("Write") \/ Is("WriteSkip")) /\ Consume
+          /\ main = "generate" /\ InTodo(Ev[l].file) /\ genres[Ev[l].file] = "ok"
+          /\ wrote' = wrote \cup {Ev[l].file}
+          /\ todo' = SelectSeq(todo, LAMBDA x : x # Ev[l].file)
+          /\ UNCHANGED <<result, pool, quitMsgs, wpc, wfile, active, quitNow, chan, rxOpen, col, acc, txMain, main, genres>>
+TWritten == /\ Is("Written") /\ Consume /\ Stutter /\ main = "generate" /\ todo = <<>>
+\* the generation stage may end the run early: a backend refuses an output still to do (exit 1), or the main thread panics
+\* (exit 101) after a successful join. P judges those states too.
+GenFails(code) == /\ main = "generate"
+                  /\ (code = "exit1" => \E k \in 1..Len(todo) : genres[todo[k]] = "generr")
                   /\ main' = code
-                  /\ UNCHANGED <<result, pool, quitMsgs, wpc, wfile, active, quitNow, chan, rxOpen, col, acc, txMain>>
+                  /\ UNCHANGED <<result, pool, quitMsgs, wpc, wfile, active, quitNow, chan, rxOpen, col, acc, txMain, genres, todo, wrote>>
 TExit == /\ Is("Exit") /\ Consume
-         /\ CASE Ev[l].detail = "0" -> main = "joincol" /\ P!JoinCol /\ main' = "exit0"
-              [] Ev[l].detail = "1" -> (main = "joincol" /\ P!JoinCol /\ main' = "exit1") \/ GenFails("exit1")
+         /\ CASE Ev[l].detail = "0" -> main = "generate" /\ P!GenDone /\ main' = "exit0"
+              [] Ev[l].detail = "1" -> (main = "joincol" /\ P!JoinCol /\ main' = "exit1") \/ (main = "generate" /\ P!GenDone /\ main' = "exit1")
+                                          \/ GenFails("exit1")
               [] Ev[l].detail = "101" -> (main = "walking" /\ P!ScopeEnd /\ main' = "exit101") \/ GenFails("exit101")
               [] OTHER -> FALSE
 
 \* ---- silent steps (bounded: they only move program counters forward or idle/wake; finite state)
 Silent == /\ UNCHANGED l
-          /\ \E w \in TWorkers :
-                \/ P!GetWork(w) \/ P!IdleWake(w) \/ P!Quit(w) \/ P!Send(w)
-                \/ (wpc[w] = "parse" /\ result[wfile[w]] = "panic" /\ P!Parse(w))
+          /\ \/ \E w \in TWorkers :
+                   \/ P!GetWork(w) \/ P!IdleWake(w) \/ P!Quit(w) \/ P!Send(w)
+                   \/ (wpc[w] = "parse" /\ result[wfile[w]] = "panic" /\ P!Parse(w))
+             \/ (main = "joincol" /\ col = "retOk" /\ ~P!HasErrors /\ P!JoinCol)        \* check_parse_errors passed: on to generation
 
 TNext == TParsed \/ TSendStart \/ TSendEnd \/ TRecv \/ TFold \/ TCollectorExit \/ TWalkDone \/ TJoined
-            \/ TStage \/ TExit \/ Silent
+            \/ TReconciled \/ TWrite \/ TWritten \/ TExit \/ Silent
 TSpec == TInit /\ [][TNext]_<<pvars, l>>
 
 \* highest position reached by any explored behaviour (register 7); acceptance = the whole log was consumed
@@ -90,4 +106,6 @@ PTypeOk == P!TypeOk
 PExitOk == P!ExitOk
 PNoPanicExit == P!NoPanicExit
 PCleanSucceeds == P!CleanSucceeds
+PNoWriteWithErrors == P!NoWriteWithErrors
+PWroteOk == P!WroteOk
 =============================================================================
